@@ -326,6 +326,10 @@ class MathArray(np.ndarray):
         else:
             # just in case it had been an integer-like float
             exponent = int(exponent)
+            # LAPACK only reports singularity when it meets an exactly zero pivot, which
+            # rounding usually prevents (e.g. [[5, 5], [3, 3]]), so test the rank as well
+            if exponent < 0 and np.linalg.matrix_rank(self) < self.shape[0]:
+                raise MathArrayError('Cannot raise singular matrix to negative powers.')
             try:
                 return np.linalg.matrix_power(self, exponent)
             except np.linalg.LinAlgError as error:
